@@ -312,7 +312,8 @@ theorem nodeItems_mem {cfg : Config} {ic : ItemConf} {d : DepNode} {xs : List Na
       injection h with h; subst h
       have hx' : x = c := by simpa using hx
       subst hx'
-      have : x ∈ cands.filter (fun c => !gIgnored cfg c) := by rw [hc]; simp
+      have : x ∈ dedup (cands.filter (fun c => !gIgnored cfg c)) := by rw [hc]; simp
+      rw [mem_dedup] at this
       simp only [List.mem_filter] at this
       simp [nodeTargets, this.1]
     · cases h
